@@ -109,6 +109,8 @@ def structural_invariants(m):
         if len(set(pairs)) != len(pairs):
             out.append("duplicate recordings")
         for r, s in pairs:
+            if s == "i":
+                out.append(f"recording ({r},'i'): 'i' is the key of the stimulus, not a state integrate can read")
             if s in cs:
                 if not (0 <= int(r) < n):
                     out.append(f"recording ({r},{s}) refers to a missing compartment")
